@@ -10,7 +10,7 @@ from .ic10 import AsmError
 
 
 def case_key(case):
-    blob = json.dumps([case.get("src"), case.get("modules"), case.get("variants"), case.get("ref_src")], sort_keys=True)
+    blob = json.dumps([case.get("src"), case.get("modules"), case.get("variants"), case.get("ref_src")] + ([case["merged_src"]] if case.get("merged_src") else []), sort_keys=True)
     return hashlib.sha256(blob.encode()).hexdigest()[:16]
 
 
@@ -66,7 +66,7 @@ def symptom_of(bad):
         # construct changes the digest and is reported as a new violation
         return "trace:" + _digest(bad)
     if k == "status":
-        return "status:" + str(bad["got_status"]).split(":")[0] + "!=" + str(bad["ref_status"]).split(":")[0]
+        return "status:" + str(bad["got_status"]).split(":")[0] + "!=" + str(bad["ref_status"]).split(":")[0] + ":" + _digest(bad)
     if k == "monitor:tag" and bad.get("events"):
         e = bad["events"][0]
         return f"monitor:tag:line{e[1]}:{e[2]}"
@@ -106,6 +106,7 @@ def compile_variants(case):
         o = dict(o)
         name = json.dumps(o, sort_keys=True)
         pragma = o.pop("_pragma", False)
+        merged = o.pop("_merged", False)
         options = comp.opts(**o)
         msrc = src
         api_options = options
@@ -115,6 +116,9 @@ def compile_variants(case):
             api_options = comp.opts()
             api_options["append_version"] = True
         inp = dict(full, **{"": msrc}) if full is not None else msrc
+        if merged:
+            # the mechanically merged single-file form of a multi-module program (C13)
+            inp = (pragma_header(options) if pragma else "") + case["merged_src"]
         res, meta = comp.compile_with_meta(inp, api_options)
         if "code" not in res:
             errors[name] = res
@@ -248,6 +252,10 @@ def run_case(case):
         undefined_sample=res.undefined_sample,
     )
     out["sample"] = res.sample
+    if res.executions == 0 and res.undefined > 0 and not res.bad:
+        # the reference executor left its subset on every explored execution: nothing was checked (harness problem, never silent)
+        out["symptom"] = "harness:reference-undefined-on-every-execution"
+        out["detail"] = {"description": str(res.undefined_sample)}
     if res.bad:
         b = res.bad[0]
         out["symptom"] = symptom_of(b)
